@@ -5,6 +5,7 @@ import (
 	"go/ast"
 	"go/token"
 	"go/types"
+	"golang.org/x/tools/go/cfg"
 )
 
 func init() {
@@ -136,6 +137,92 @@ func ruleC06HeaderBeforeContent(c *Ctx) {
 	info := f.Pkg.TypesInfo
 	fl := c.flow(f)
 	offset := paramVar(f, "offset")
+	// per loop iteration: after a header was read, the content skip is reached only (a) across the success edge of
+	// indexHeader, or (b) across the edge that says this header is before the caller's offset and is not to be indexed
+	// (`i >= offset` false / `i < offset` true). Decided as a must-dataflow; reading the next header resets the fact.
+	const applied = 1
+	isNext := func(n ast.Node) bool {
+		for _, call := range callsIn(n) {
+			if isMethod(calleeObj(info, call), "archive/tar", "Reader", "Next") {
+				return true
+			}
+		}
+		return false
+	}
+	var idxCalls []*ast.CallExpr
+	for _, cs := range f.calls {
+		if cs.Target == ih {
+			idxCalls = append(idxCalls, cs.Call)
+		}
+	}
+	an := &Analysis{Must: true, Entry: 0,
+		Node: func(n ast.Node, st State) State {
+			if isNext(n) {
+				return st &^ applied
+			}
+			return st
+		},
+		Edge: func(b *cfg.Block, i int, st State) State {
+			for _, ft := range fl.edgeFacts(b, i) {
+				be, ok := ast.Unparen(ft.E).(*ast.BinaryExpr)
+				if !ok {
+					continue
+				}
+				// the "not to be indexed" edge of a comparison with the offset parameter
+				if offset != nil && (usesObj(info, be.Y, offset) || usesObj(info, be.X, offset)) {
+					op := be.Op
+					if usesObj(info, be.X, offset) && !usesObj(info, be.Y, offset) {
+						switch op { // offset on the left: mirror
+						case token.LSS:
+							op = token.GTR
+						case token.LEQ:
+							op = token.GEQ
+						case token.GTR:
+							op = token.LSS
+						case token.GEQ:
+							op = token.LEQ
+						}
+					}
+					if (op == token.GEQ || op == token.GTR) && !ft.Pos || (op == token.LSS || op == token.LEQ) && ft.Pos {
+						st |= applied
+					}
+					continue
+				}
+				// success edge of an indexHeader call evaluated in this block
+				var x ast.Expr
+				if isNilIdent(info, be.Y) {
+					x = be.X
+				} else if isNilIdent(info, be.X) {
+					x = be.Y
+				}
+				if x == nil || !(be.Op == token.EQL && ft.Pos || be.Op == token.NEQ && !ft.Pos) {
+					continue
+				}
+				obj := objOfIdent(info, x)
+				for _, nd := range b.Nodes {
+					as, ok := nd.(*ast.AssignStmt)
+					if !ok || len(as.Rhs) != 1 || obj == nil {
+						continue
+					}
+					assigns := false
+					for _, l := range as.Lhs {
+						if objOfIdent(info, l) == obj {
+							assigns = true
+						}
+					}
+					if !assigns {
+						continue
+					}
+					for _, ic := range idxCalls {
+						if ast.Unparen(as.Rhs[0]) == ast.Expr(ic) {
+							st |= applied
+						}
+					}
+				}
+			}
+			return st
+		}}
+	fl.solve(an)
 	n := 0
 	for _, cs := range f.calls {
 		if !isPkgFunc(cs.Callee, "io", "Copy") || len(cs.Call.Args) != 2 {
@@ -145,30 +232,11 @@ func ruleC06HeaderBeforeContent(c *Ctx) {
 			continue
 		}
 		n++
-		// on every path on which the header is to be indexed at all (i >= offset), indexHeader succeeded before the skip:
-		// the skip must not be reachable from the `i >= offset` true edge without crossing indexHeader's success edge.
-		// Implemented as: the statement list of the loop body has the indexing if-statement before the skip, and the
-		// indexHeader call inside it is error-checked.
-		var idxIf *ast.IfStmt
-		var idxCall *ast.CallExpr
-		for _, cs2 := range f.calls {
-			if cs2.Target == ih && cs2.Call.Pos() < cs.Call.Pos() {
-				idxCall = cs2.Call
-			}
+		st, reach := fl.before(an, cs.Call)
+		if !reach {
+			continue
 		}
-		walkOwn(f.Body(), func(nd ast.Node) {
-			is, ok := nd.(*ast.IfStmt)
-			if ok && idxCall != nil && containsNode(is.Body, idxCall) && offset != nil && usesObj(info, is.Cond, offset) {
-				idxIf = is
-			}
-		})
-		good := idxCall != nil && idxIf != nil && errorReturned(f, idxCall) && idxIf.End() < cs.Call.Pos()
-		if good {
-			// and nothing between them can skip the copy while having indexed: the skip is dominated by the if-statement's condition node
-			okk, _ := fl.dominatedBy(cs.Call, func(m ast.Node) bool { return m == ast.Node(idxIf.Cond) }, nil)
-			good = okk
-		}
-		c.verdictIf(good, rule, f, fmt.Sprintf("skip#%d", n), cs.Call.Pos(), "the header of a member is applied to the index (error-checked) before its content is skipped", "the member's content is skipped before/without its header having been applied: a cut inside the content would lose the record's metadata too, or an unapplied header is silently passed over")
+		c.verdictIf(st&applied != 0 && len(idxCalls) > 0, rule, f, fmt.Sprintf("skip#%d", n), cs.Call.Pos(), "the header of a member is applied to the index (error-checked) before its content is skipped", "the member's content is skipped before/without its header having been applied: a cut inside the content would lose the record's metadata too, or an unapplied header is silently passed over")
 	}
 	if n < 2 {
 		c.unresolved("only %d content skips found in recovery.Index", n)
